@@ -22,7 +22,7 @@ def keyset(n):
 def model_check_btree(ctx, quick):
     """BTreeI: the transcribed insert / erase algorithm, all histories over a bounded key set; clauses of C02 as invariants"""
     runs = [(4, 4, 4, 3, "TRUE"), (4, 5, 4, 3, "TRUE"), (5, 4, 4, 3, "TRUE"), (4, 4, 10, 1, "FALSE")] if quick else \
-           [(4, 4, 4, 4, "TRUE"), (4, 5, 4, 4, "TRUE"), (5, 4, 4, 4, "TRUE"), (5, 5, 5, 4, "TRUE"), (6, 4, 5, 4, "TRUE"), (4, 4, 13, 1, "FALSE"), (5, 4, 12, 1, "FALSE"), (4, 4, 5, 4, "TRUE")]
+           [(4, 4, 4, 4, "TRUE"), (4, 5, 4, 4, "TRUE"), (5, 4, 4, 4, "TRUE"), (5, 5, 4, 4, "TRUE"), (6, 4, 4, 4, "TRUE"), (4, 4, 13, 1, "FALSE"), (5, 4, 12, 1, "FALSE"), (4, 4, 5, 3, "TRUE")]
     import concurrent.futures as cf
     jobs = []
     for (ls, is_, nk, mm, dup) in runs:
@@ -36,7 +36,7 @@ def model_check_btree(ctx, quick):
         jobs.append(dict(cfg="mc_btree_bulk_%d_%d.cfg" % (ls, is_), cfg_text=bulk_only % (ls, is_, keyset(NB), 1, "FALSE", "none", "")))
     jobs.append(dict(cfg="mc_btree_bulk2.cfg", cfg_text=BT_CFG.replace("SPECIFICATION Spec", "SPECIFICATION BulkSpec") % (4, 4, keyset(9 if quick else 11), 1, "FALSE", "none", "")))
     with cf.ThreadPoolExecutor(max_workers=4) as pool:
-        futs = [pool.submit(tlc_mc, ctx, SD, "BTreeI", j["cfg"], workers=4, coverage=False, timeout=6000, xmx="12g", deque=True, cfg_text=j["cfg_text"]) for j in jobs]
+        futs = [pool.submit(tlc_mc, ctx, SD, "BTreeI", j["cfg"], workers=4, coverage=False, timeout=6000, xmx="12g", deque=False, cfg_text=j["cfg_text"]) for j in jobs]
         for f in futs:
             f.result()
     r = tlc_mc(ctx, SD, "BTreeI", "mc_btree_bulkneg.cfg", workers=8, coverage=False, timeout=3000, xmx="16g", deque=True, expect_ok=False,
